@@ -273,6 +273,11 @@ def main(a):
     tri_ops = ["add", "mul", "shl", "lt", "eq", "band", "bor", "land", "lor"] if quick else BIN
     c.suite("operator-triples", triple_suite(a.seed, tri_ops), nontrivial=lambda r: hash(r.sexp))
     c.suite("random-trees", random_suite(a.seed, 150 if quick else 15000), nontrivial=lambda r: hash(r.sexp))
+    # the same token sequences written without optional white space (x<-1, a+-b, c?-1:2 ...): the lexer must cut them the same
+    import refrun
+    c.suite("operator-pairs-compact", pair_suite(a.seed), nontrivial=lambda r: hash(r.sexp), source_transform=refrun.compact_operators)
+    c.suite("random-trees-compact", random_suite(a.seed + 1, 100 if quick else 8000), nontrivial=lambda r: hash(r.sexp),
+            source_transform=refrun.compact_operators)
     c.raw_suite("assignment-level", assignment_cases())
     c.raw_suite("casts", cast_cases(), max_report=4)
     return c.finish(
@@ -284,7 +289,8 @@ def main(a):
              "replaced by variables named as programs name them (lower case, Capitalised, ALL_CAPS, type-like: N, LIMIT, Box, T ...); "
              "assignment-level: a = b = x op y for all 18 operators (plain, fully parenthesised, after a "
              "compound assignment), three-fold chains, assignment vs ?:, assignment used as operand / condition / argument, "
-             "with values computed by the harness. non-trivial = distinct program",
+             "with values computed by the harness; operator-pairs-compact / random-trees-compact: the same programs with every "
+             "optional space removed from the rendered text (same token sequence). non-trivial = distinct program",
         extra={"exhaustive": True, "exhaustive_note": "operator pairs are enumerated completely; triples over the stated "
                "operator set; random trees are a sample"},
         assumptions=["postfix chains beyond [ ], casts, await, try are outside the ladder model",
